@@ -37,6 +37,11 @@ def pick{N}(v: {Enum}{N}) -> int:
         {Enum}{N}.{Variant} => return 1
         {Enum}{N}.Other{N} => return 2
 
+def push_twice{N}(mut {mutl}: list[int], extra: int) -> int:
+    {mutl}.append(extra)
+    {mutl}.append(extra)
+    return len({mutl})
+
 def tmpl{N}() -> None:
     p = {Type}{N}({field}=1)
     println(p.{method}(2))
@@ -59,14 +64,16 @@ def tmpl{N}() -> None:
     println({lvd}["k"])
     {fsv} = 8
     println(f"{{fsv}}")
+    mut grow = [1]
+    println(push_twice{N}(grow, 4))
 '''
 SAFE = {"Type": "Widget", "field": "amount", "method": "total", "mparam": "extra", "Enum": "Shade", "Variant": "Dark",
-        "mbind": "got", "cparam": "arg", "lvl": "items", "lvo": "gadget", "lvd": "table", "fsv": "shown"}
-TEMPLATE_OUT = ["3", "1", "4", "2", "9", "7", "6", "8"]
+        "mbind": "got", "cparam": "arg", "lvl": "items", "lvo": "gadget", "lvd": "table", "fsv": "shown", "mutl": "bucket"}
+TEMPLATE_OUT = ["3", "1", "4", "2", "9", "7", "6", "8", "3"]
 # positions where the name is used bare (no per-case suffix possible): one case per name per position
 # lvl / lvo / lvd: a variable used as the ROOT of an assignment target (list element, field, dict value)
-# fsv: a variable read inside an f-string hole
-BARE = ["field", "method", "mparam", "Variant", "mbind", "cparam", "Type", "Enum", "lvl", "lvo", "lvd", "fsv"]
+# fsv: a variable read inside an f-string hole; mutl: a function parameter that is written to (`mut` list parameter)
+BARE = ["field", "method", "mparam", "Variant", "mbind", "cparam", "Type", "Enum", "lvl", "lvo", "lvd", "fsv", "mutl"]
 
 
 def template_case(pos, name, k):
